@@ -45,7 +45,7 @@ fn same(a: &[u8], b: &[u8]) -> bool {
     ok
 }
 
-//@ harness: c08_writer_one props=C08 tier=thorough required=no class=functional covers=1 mem=16 timeout=1200 est=200
+//@ harness: c08_writer_one props=C08 tier=thorough required=no class=functional covers=1 mem=16 timeout=900 est=200
 //@ bounds: BufferedWriter, sink = stdout (stubbed): one batch of one packet (header fully symbolic, payload of 6 symbolic bytes), explicit flush: the sink receives exactly rdh|payload (byte for byte)
 #[kani::proof]
 #[kani::unwind(66)]
